@@ -7,6 +7,9 @@
 //   stated space bound (family hook), sorted view (size, order, cumulative weights, total == n),
 //   rank / quantile monotonicity, rank_incl >= rank_excl, CDF/PMF consistency, invalid queries throw,
 //   and, while !is_estimation_mode(), every rank and quantile equals the true value of the multiset.
+// Queries and get_sorted_view() have side effects (they sort level 0 / the base buffer and cache the view), so
+// part of the observations are "light": only n, extremes, iteration and the space bound are read, which lets
+// never-queried sketches reach their next update or merge.
 //
 // A family unit (c07_kll.cpp, c07_req.cpp, c07_quantiles.cpp) supplies a policy struct `F`:
 //   static const char* name();
@@ -584,8 +587,8 @@ void run_case_t(uint64_t idx, Rng& r) {
   const uint32_t k_common = F::pick_k(r, TH);
   const bool arith = std::is_arithmetic<T>::value;
   // size budget of an estimating leaf
-  const bool huge = TH && arith && r.chance(0.0007);
-  const bool big = !huge && r.chance(TH ? 0.02 : 0.05);
+  const bool huge = TH && arith && r.chance(0.004);
+  const bool big = !huge && r.chance(TH ? 0.04 : 0.05);
   const uint64_t est_max = huge ? 1000000 : (big ? (TH ? 50000 : 6000) : (TH ? 3000 : 800));
   const double p_special = r.chance(0.35) ? (r.chance(0.2) ? 0.5 : 0.03) : 0.0;
   const bool overlap = r.coin();
